@@ -85,15 +85,29 @@ theorem is_valid_ptr_fixed_sound (b sz p n : BitVec 64) (hv : b.toNat + sz.toNat
   unfold InRange
   omega
 
-/-- arena.c relocation test at load time: an *accepted* relocation entry addresses 8 bytes inside
-    the buffer — PARTIAL: needs `used ≥ 8`; `b->used - sizeof(void*)` wraps below that (F9 family). -/
+/-- arena.c relocation test at load time: an *accepted* relocation entry addresses 8 bytes inside the buffer.
+    PARTIAL: stated with `used ≥ 8`, which the 4.5.2 text needs (`b->used - sizeof(void*)` wraps below that, F9 family,
+    witness below); texts that test `used < sizeof(void*)` themselves satisfy the hypothesis-free statement as well
+    (`arena_reloc_accept_sound_v2`, proved over a frozen copy of that form). The proof only uses the Nat meaning of the
+    disjuncts, not their order, so regrouping the test into several `if`s does not break it. -/
 theorem arena_reloc_accept_sound_partial (id nb off used bd : BitVec 64) (hu : 8 ≤ used.toNat)
     (h : arena_reloc_reject id nb off used bd = false) :
-    id.toNat < nb.toNat ∧ off.toNat + 8 ≤ used.toNat ∧ bd ≠ 0 := by
+    id.toNat < nb.toNat ∧ off.toNat + 8 ≤ used.toNat ∧ bd.toNat ≠ 0 := by
   simp only [arena_reloc_reject, Bool.or_eq_false_iff, decide_eq_false_iff_not, BitVec.le_def,
-    BitVec.lt_def, BitVec.toNat_sub, beq_eq_false_iff_ne] at h
+    BitVec.lt_def, BitVec.toNat_sub, beq_eq_false_iff_ne, ne_eq, BitVec.toNat_eq] at h
   have h8 : (8#64).toNat = 8 := by decide
-  refine ⟨by omega, by omega, h.2⟩
+  have h0 : (0#64).toNat = 0 := by decide
+  omega
+
+/-- the stricter form (explicit `used < sizeof(void*)` test) is sound for ALL values, no side hypothesis -/
+theorem arena_reloc_accept_sound_v2 (id nb off used bd : BitVec 64)
+    (h : arena_reloc_reject_v2 id nb off used bd = false) :
+    id.toNat < nb.toNat ∧ off.toNat + 8 ≤ used.toNat ∧ bd.toNat ≠ 0 := by
+  simp only [arena_reloc_reject_v2, Bool.or_eq_false_iff, decide_eq_false_iff_not, BitVec.le_def,
+    BitVec.lt_def, BitVec.toNat_sub, beq_eq_false_iff_ne, ne_eq, BitVec.toNat_eq] at h
+  have h8 : (8#64).toNat = 8 := by decide
+  have h0 : (0#64).toNat = 0 := by decide
+  omega
 
 theorem arena_reloc_v452_unsound_witness :
     ∃ id nb off used bd : BitVec 64, arena_reloc_reject_v452 id nb off used bd = false ∧ ¬ off.toNat + 8 ≤ used.toNat :=
